@@ -633,6 +633,10 @@ func runCheck(sp *spec, tier string) int {
 	if sp.Post != nil {
 		var pviol []string
 		post, pviol = sp.Post(sc, sp, tier, seed)
+		if len(pviol) > 3 {
+			fmt.Printf("(%d violations found by the post step; reporting the first 3)\n", len(pviol))
+			pviol = pviol[:3]
+		}
 		for i, v := range pviol {
 			path := filepath.Join(verifDir, "replays", fmt.Sprintf("%s-post-%d.json", sp.ID, i))
 			writeJSON(path, map[string]interface{}{"property": sp.ID, "class": "post-check", "msg": v, "seed": seed})
